@@ -14,9 +14,21 @@ open Sfio
 let z_of_int (i : int) : z =
   if i = 0 then Z0 else if i > 0 then Zpos (pos_of_int i) else Zneg (pos_of_int (- i))
 
+(* decimal integer of any size (the exact values of huge doubles are printed in full) *)
+let z_of_decimal (s : string) : z =
+  if String.length s <= 15 then z_of_int (int_of_string s) else begin
+    let neg = s.[0] = '-' in
+    let ten = z_of_int 10 in
+    let acc = ref Z0 in
+    String.iteri (fun i c ->
+        if not (i = 0 && (c = '-' || c = '+')) then
+          acc := Z.add (Z.mul !acc ten) (z_of_int (Char.code c - 48))) s;
+    if neg then Z.opp !acc else !acc
+  end
+
 let ord_of_tok = function
   | "nan" -> ONaN | "inf" -> OPInf | "-inf" -> ONInf
-  | s -> OFin (z_of_int (int_of_string s))
+  | s -> OFin (z_of_decimal s)
 
 let parse_geom (s : string) : vgeom =
   let cur = ref (tokens s) in
